@@ -110,8 +110,23 @@ func respellCC(g *G, values []string) []string {
 	for g.chance(0.3) {
 		out = append(out, pick(g, extensionDirectives...))
 	}
-	// any order
+	// any order — except that the occurrences of ONE directive keep their relative order: which of them
+	// comes first is meaning, not spelling (RFC 9111 §4.2.1: the first occurrence is the one that counts)
+	orig := append([]string(nil), out...)
 	g.r.Shuffle(len(out), func(i, j int) { out[i], out[j] = out[j], out[i] })
+	dirName := func(d string) string {
+		n, _, _ := strings.Cut(d, "=")
+		return strings.ToLower(strings.TrimSpace(n))
+	}
+	byName := map[string][]string{}
+	for _, d := range orig {
+		byName[dirName(d)] = append(byName[dirName(d)], d)
+	}
+	for i, d := range out {
+		n := dirName(d)
+		out[i] = byName[n][0]
+		byName[n] = byName[n][1:]
+	}
 	// split across field lines, OWS and empty elements
 	var lines []string
 	cur := ""
